@@ -6,6 +6,8 @@ from checks import common
 
 TRACE_CFG = "INIT TraceInit\nNEXT TraceNext\nINVARIANT ContractHolds\nINVARIANT SoftHolds\nPOSTCONDITION TraceAccepted\nCHECK_DEADLOCK FALSE\n"
 MC_CFG = "SPECIFICATION MCSpec\nINVARIANT MCInv\nPROPERTY EverythingRead\nCHECK_DEADLOCK FALSE\n"
+MC_SAFE_CFG = "INIT MCInit\nNEXT MCNext\nVIEW MCView\nINVARIANT MCInv\nCHECK_DEADLOCK FALSE\n"
+COVER_CFG = "INIT GenInit\nNEXT CoverNext\nVIEW CoverView\nINVARIANT EmitCover\nCHECK_DEADLOCK FALSE\n"
 GEN_CFG = "INIT GenInit\nNEXT GenNext\nINVARIANT EmitGen\nCHECK_DEADLOCK FALSE\n"
 
 _TAG = re.compile(r"\((C\d\d)(?:/(C\d\d))?\)\s*$")
@@ -62,8 +64,13 @@ def run(pid, tier, rep):
     wd = vlib.workdir(pid)
     quick = tier == "quick"
     # 1. the design: an abstract pair of endpoints + lossy frame network generating every event the monitor judges
-    st = vlib.tlc_mc(pid, "MC_Stream", MC_CFG, {"MaxLen": 3, "MaxNet": 2 if quick else 3, "S": '"cli"', "SID": 2, "Win": 4, "CWin": 4},
-                     need_actions=["AWrite", "APack", "ADeliver", "ALose", "AAck", "ARead", "AShutdown"])
+    # safety + liveness on 2 bytes (frame ids kept, no VIEW: liveness checking wants the real state graph) ...
+    st = vlib.tlc_mc(pid, "MC_Stream", MC_CFG, {"MaxLen": 2, "MaxNet": 2, "S": '"cli"', "SID": 2, "Win": 4, "CWin": 4},
+                     need_actions=["AWrite", "APack", "ADeliver", "ALose", "AAck", "ARead", "AShutdown", "ALateDeliver", "ALateAck"])
+    if not quick:
+        # ... and safety alone on 3 bytes under a VIEW that ignores the frame ids
+        st3 = vlib.tlc_mc(pid, "MC_Stream", MC_SAFE_CFG, {"MaxLen": 3, "MaxNet": 2, "S": '"cli"', "SID": 2, "Win": 4, "CWin": 4}, timeout=3000)
+        rep.add_mc("MC_Stream/3bytes-safety", st3)
     rep.add_mc("MC_Stream", st)
     # 2. spec -> impl: environment schedules enumerated by TLC, executed on the real DataStreams pair, traces validated
     flows = [("cli-uni", '"cli"', 2, 2, 3), ("srv-uni", '"srv"', 3, 100, 2), ("cli-bi", '"cli"', 0, 1, 100), ("srv-bi", '"srv"', 1, 100, 100)]
@@ -76,6 +83,15 @@ def run(pid, tier, rep):
         rep.add_mc("Gen_Stream/" + name, g)
         vlib.vh(["streams-replay", beh, trace])
         validate(rep, pid, "tlc-schedules/" + name, trace)
+    # 2b. transition cover of the design model: one schedule per (design state, incoming step) pair, incl. late delivery /
+    #     late acknowledgement of frames that were declared lost
+    beh = os.path.join(wd, "beh_cover.ndjson")
+    trace = os.path.join(wd, "trace_cover.ndjson")
+    g = vlib.tlc_gen(pid, "Gen_StreamCover", COVER_CFG, {"MaxLen": 2, "MaxNet": 2, "S": '"cli"', "SID": 2, "Win": 100, "CWin": 100, "Depth": 0,
+                                                          "CoverDepth": 9 if quick else 14}, beh, dfs=True)
+    rep.add_mc("Gen_StreamCover", g)
+    vlib.vh(["streams-replay", beh, trace])
+    validate(rep, pid, "tlc-transition-cover", trace)
     # 3. seeded random long schedules (0-RTT, hostile injections, all parameter combinations)
     beh = os.path.join(wd, "beh_random.ndjson")
     trace = os.path.join(wd, "trace_random.ndjson")
